@@ -125,7 +125,30 @@ def make_flag_class(signals):
 OPS = ["add", "add_till", "add_force", "push", "extend", "pop", "pop_till", "pop_one", "pop_all", "len", "close", "add_stop"]
 
 
+def gen_observers(rng):
+    """C07: threads that only look (len, pop_all) while others change the queue in several steps (extend of a batch, a pop_all that
+    snapshots and clears): what they see must be a state the queue has in some sequential order of the calls"""
+    val = [0]
+
+    def nv():
+        val[0] += 1
+        return val[0]
+    threads = [[["extend", [nv() for _ in range(rng.randint(2, 4))]]]]
+    if rng.random() < 0.5:
+        threads.append([["extend", [nv() for _ in range(rng.randint(2, 3))]]])
+    if rng.random() < 0.5:
+        threads.append([["add", nv()]] + ([["add", nv()]] if rng.random() < 0.5 else []))
+    for _ in range(rng.randint(1, 2)):
+        threads.append([[rng.choice(["len", "len", "pop_all"])] for _ in range(rng.randint(1, 2))])
+    rng.shuffle(threads)
+    prefill = [nv() for _ in range(rng.choice([0, 1, 2]))]
+    return {"max": 1024, "threads": threads, "fire": [], "ntills": 0, "prefill": prefill, "allow": False,
+            "close_at_end": rng.random() < 0.3, "silent": True, "nstall": 0}
+
+
 def gen_scenario(rng, prop="C07"):
+    if prop == "C07" and rng.random() < 0.15:
+        return gen_observers(rng)
     maxs = rng.choice([1, 1, 2, 2, 3, 1024])
     nthreads = rng.randint(2, 5)
     ntills = 0
